@@ -305,6 +305,8 @@ namespace occa {
 
     // Skip }
     if (hasBrace) {
+      OCCA_ERROR("Object is missing closing '}'",
+                 *c == '}');
       ++c;
     }
   }
